@@ -800,6 +800,10 @@ def check(ctx):
     cov = dict(evaluations=len(runs), distinct_nontrivial=distinct, rule=RULES[prop], samples=samples,
                traces_validated_against_impl=sum(1 for r in runs if r['machine'].get('stats', {}).get('events', 0) > 0),
                input_distribution=dist, oracle_totals=stat_tot, pass_wall_s=round(res['wall'], 1), exhaustive=False)
+    lights = [r['light'] for r in runs if r.get('light')]
+    if lights:
+        cov['runs_repeated_without_recorder'] = len(lights)
+        cov['of_which_same_end_state'] = sum(1 for l_ in lights if l_.get('same', True))
     cov.update(comp_extra)
     return dict(issues=issues, coverage=cov, assumptions=ASSUME[prop])
 
